@@ -131,7 +131,7 @@ func init() {
 		"slice.u16": t([]uint16(nil)), "slice.slice.any": t([][]any(nil)), "ptr.u8": t((*uint8)(nil)),
 		"map.int.text": t(map[int]string(nil)), "map.text.any": t(map[string]any(nil)), "map.any.any": t(map[any]any(nil)),
 		"map.label.any": t(map[cose.Label]any(nil)),
-		"tag.any": t(cbor.Tag[any]{}), "tag.u8": t(cbor.Tag[uint8]{}), "bstr.any": t(cbor.Bstr[any]{}), "bstr.raw": t(cbor.Bstr[cbor.RawBytes]{}),
+		"tag.any":       t(cbor.Tag[any]{}), "tag.u8": t(cbor.Tag[uint8]{}), "bstr.any": t(cbor.Bstr[any]{}), "bstr.raw": t(cbor.Bstr[cbor.RawBytes]{}),
 		"bstr.bstr.u8": t(cbor.Bstr[cbor.Bstr[uint8]]{}), "slice.bstr.int": t([]cbor.Bstr[int](nil)),
 		"bwbytes": t(cbor.ByteWrap[[]byte]{}), "bw.text": t(cbor.ByteWrap[string]{}), "raw": t(cbor.RawBytes(nil)),
 		"cert": t((*cbor.X509Certificate)(nil)), "csr": t(cbor.X509CertificateRequest{}), "timestamp": t(cbor.Timestamp{}), "label": t(cose.Label{}),
@@ -140,7 +140,7 @@ func init() {
 		"slice.SPtr": t([]SPtr(nil)),
 		// wire types outside package fdo
 		"protocol.ErrorMessage": t(protocol.ErrorMessage{}), "protocol.Hash": t(protocol.Hash{}), "protocol.Hmac": t(protocol.Hmac{}),
-		"protocol.PublicKey": t(protocol.PublicKey{}),
+		"protocol.PublicKey":     t(protocol.PublicKey{}),
 		"protocol.RvInstruction": t(protocol.RvInstruction{}), "protocol.RvInfo": t([][]protocol.RvInstruction(nil)),
 		"protocol.RvTO2Addr": t(protocol.RvTO2Addr{}), "protocol.To1d": t(protocol.To1d{}), "protocol.GUID": t(protocol.GUID{}), "protocol.Nonce": t(protocol.Nonce{}),
 		"serviceinfo.KV": t(serviceinfo.KV{}), "serviceinfo.KVs": t([]*serviceinfo.KV(nil)),
